@@ -325,7 +325,11 @@ def library_oracle_(ctx, floor0):
                # frame lengths that ARE powers of two (64, 128, 256 samples), padded: the DFT size is the first power of
                # two at or beyond the frame length, i.e. the frame length itself (7th entry: frame length in ms)
                ("tri", "mel", 8000, 20.0, 3800.0, 4, 8.0), ("fbank", "mel", 8000, 20.0, 3800.0, 4, 16.0),
-               ("gabor", "mel", 8000, 100.0, 3800.0, 4, 32.0)]
+               ("gabor", "mel", 8000, 100.0, 3800.0, 4, 32.0),
+               # finite signals of huge / tiny magnitude, magnitude spectrum (8th entry: the signal's scale): |z| must not be
+               # computed through re**2 + im**2
+               ("fbank", "mel", 8000, 20.0, 3800.0, 4, None, 1e157), ("gabor", "mel", 8000, 100.0, 3800.0, 4, None, 1e157),
+               ("tri", "mel", 8000, 20.0, 3800.0, 4, None, 1e-200), ("gammatone", "mel", 8000, 100.0, 3800.0, 4, None, 1e-200)]
     for it in range(n):
         if ctx.out_of_time():
             break
@@ -340,10 +344,11 @@ def library_oracle_(ctx, floor0):
         hi = r.choice([rate / 2, rate / 2 - 100.0, rate / 4])
         if hi <= lo:
             hi = float(rate // 2)
-        corner_flen = None
+        corner_flen = corner_level = None
         if corner:
             kind, scale, rate, lo, hi, nf = corner[:6]
             corner_flen = corner[6] if len(corner) > 6 else None
+            corner_level = corner[7] if len(corner) > 7 else None
         if isinstance(scale, dict) and scale.get("name") == "octave" and lo < 30.0:
             lo = 30.0
         fb_analytic = r.random() < 0.3
@@ -373,6 +378,8 @@ def library_oracle_(ctx, floor0):
             if corner_flen is not None:
                 flen, shift = corner_flen, corner_flen / 4
                 flags["pad_to_nearest_power_of_two"] = True
+            if corner_level is not None:
+                flags.update(use_power=False, use_log=corner_level > 1, include_energy=False)
         try:
             comp = compute.STFTFrameComputer(bank, frame_length_ms=flen, frame_shift_ms=shift, frame_style=style,
                                              kaldi_shift=kaldi, window_function=wname, **flags)
@@ -395,6 +402,8 @@ def library_oracle_(ctx, floor0):
         level = r.choice([1.0, 1.0, 1e-2, 1e-4, 0.0])
         if corner:
             N, level = 2 * L + 5, 1.0
+            if corner_level is not None:
+                level = corner_level
         xseed = r.randrange(1 << 30)
         x = np.random.RandomState(xseed).randn(N) * level
         x.setflags(write=False)
